@@ -165,12 +165,58 @@ def break_tie(tied: 'abs:Candidate', reason: 'str|none' = None) -> 'Candidate':
     modifies_ghost('nlog', 'lasttag', 'lastmsg')
 
 
-@contract('droop.rules.scotland.Rule.count.<locals>.breakTie', props=['C07'], free={'C': 'Candidates', 'E': 'Election'},
-          trusted='searches the saved copies of earlier rounds (E.rounds, copy.copy of candidates): outside the verified '
-                  'subset; its tie procedure (49(2)(3), 51(2)) is checked by the bounded stand-in')
-def break_tie_scotland(tied: 'abs:Candidate', reason: 'str|none' = None) -> 'Candidate':
+@specfn
+def beats(m, c, d, low):
+    "at saved stage m candidate c is strictly lower (exclusion) / strictly higher (surplus) than d"
+    return ite(low, snap_vote(m, c) < snap_vote(m, d), snap_vote(m, c) > snap_vote(m, d))
+
+
+@specfn
+def sole_extreme(m, c, tied, low):
+    "c is the one tied candidate with the fewest (most) votes at stage m"
+    return and_(mem(tied, c), forall(tied, lambda d: implies(not_(same_ref(d, c)), beats(m, c, d, low))))
+
+
+@specfn
+def decided_at(m, tied, low):
+    "the tied candidates' tallies single one of them out at stage m"
+    return exists(tied, lambda c: sole_extreme(m, c, tied, low))
+
+
+@contract('droop.rules.scotland.Rule.count.<locals>.breakTie', props=['C07', 'C03', 'C11'], free={'C': 'Candidates', 'E': 'Election'},
+          instances=['scaled'])
+def break_tie_scotland(tied: 'abs:Candidate', reason: 'str' = None) -> 'Candidate':
+    """rules 49(2)(3) / 51(2): the most recent earlier stage at which the tied candidates' tallies single one of them
+    out decides (fewest votes for an exclusion, most for a surplus); if no stage does, the lot (tie order)"""
+    requires(same_ref(C, E.C))
+    requires(is_the_election(E))
     requires(length(tied) >= 1)
+    requires(forall(tied, lambda c: in_election(c)))
+    requires(E.round >= 0)
+    low = str_has(reason, 'defeat')
     ensures(mem(tied, result))
-    ensures(implies(length(tied) == 1, ghost('nlog') == old(ghost('nlog'))))
-    ensures(implies(length(tied) > 1, and_(ghost('nlog') == old(ghost('nlog')) + 1, ghost('lasttag') == 'tie')))
+    ensures(implies(length(tied) == 1, ghost('nlog') == old(ghost('nlog'))), name='no tie action for a single candidate')
+    ensures(implies(length(tied) > 1, and_(ghost('nlog') == old(ghost('nlog')) + 1, ghost('lasttag') == 'tie')),
+            name='every resolution is logged')
+    ensures(implies(length(tied) > 1,
+                    forall(range(0, E.round),
+                           lambda n: implies(and_(decided_at(n, tied, low),
+                                                  forall(range(n + 1, E.round), lambda m: not_(decided_at(m, tied, low)))),
+                                             sole_extreme(n, result, tied, low)))),
+            name='the most recent stage that singles one candidate out decides')
+    ensures(implies(and_(length(tied) > 1, forall(range(0, E.round), lambda m: not_(decided_at(m, tied, low)))),
+                    forall(tied, lambda c: result.tieOrder <= c.tieOrder)),
+            name='otherwise by lot: the declared tie-break order')
     modifies_ghost('nlog', 'lasttag', 'lastmsg')
+
+
+@loops('droop.rules.scotland.Rule.count.<locals>.breakTie', anchor='for#1')
+def break_tie_scotland_stages(tied, reason):
+    low = str_has(reason, 'defeat')
+    invariant(forall(range(E.round - it, E.round), lambda m: not_(decided_at(m, tied, low))))
+    invariant(ghost('nlog') == old(ghost('nlog')))
+
+
+@loops('droop.rules.scotland.Rule.count.<locals>.breakTie', anchor='for#2')
+def break_tie_scotland_find(tied, reason):
+    invariant(forall(tied, lambda c: implies(visited(c), c.cid != cn0.cid)))
